@@ -56,7 +56,9 @@ def write_seeds(directory: str, target) -> int:
     seeds = []
     for m in c03_corpus.MESSAGES:
         body = bytes.fromhex(m['hex'])
-        oks = [i for i in range(len(target.NEG_TABLE)) if target.measured(m['type'], body, target.negotiated_for(i))[0][0] == 'ok']  # measured: bounded work
+        outcomes = [target.measured(m['type'], body, target.negotiated_for(i))[0][0] for i in range(len(target.NEG_TABLE))]  # measured: bounded work
+        # the sets that decode it, else the sets under which it is not refused either (a defect is a good seed too)
+        oks = [i for i, o in enumerate(outcomes) if o == 'ok'] or [i for i, o in enumerate(outcomes) if o == 'violation']
         for i in oks[:2] or [0]:
             seeds.append(join_input(m['type'], i, body))
     seeds += [join_input(4, 1, b''), join_input(5, 1, b'\x00\x01\x00\x01'), join_input(3, 1, b'\x06\x02\x03abc'), join_input(6, 1, b'\x00\x01\x00\x06\x00\x01\x01abc')]
@@ -85,22 +87,24 @@ def main() -> None:
         # (under an alarm: a decoder that never returns - a mutated tree - must not hang the start-up)
         import signal
 
-        def _give_up(_signo, _frame):
-            raise TimeoutError('warm-up')
+        class WarmupStuck(BaseException):  # not an Exception: decode_and_force must not turn it into an outcome
+            pass
 
-        signal.signal(signal.SIGALRM, _give_up)
-        signal.setitimer(signal.ITIMER_REAL, 60)
+        def _give_up(_signo, _frame):
+            raise WarmupStuck()
+
+        signal.signal(signal.SIGVTALRM, _give_up)
+        signal.setitimer(signal.ITIMER_VIRTUAL, 15)
         try:
             for m in c03_corpus.MESSAGES:
                 for i in (c03_target.NEG_INDEX['all-extmsg'], c03_target.NEG_INDEX['all-asn2'], c03_target.NEG_INDEX['ext-nexthop'], 0):
                     c03_target.decode_and_force(m['type'], bytes.fromhex(m['hex']), c03_target.negotiated_for(i))
             for t, b in ((3, b'\x06\x02\x03abc'), (4, b''), (5, b'\x00\x01\x00\x01'), (6, b'\x00\x01\x00\x06\x00\x01\x01abc'), (6, b'\x00\x03\x00\x0b' + bytes(11)), (6, b'\xff\xff\x00\x00')):
                 c03_target.decode_and_force(t, b, c03_target.negotiated_for(1))
-        except TimeoutError:
+        except WarmupStuck:
             print('C03-WARMUP-TIMEOUT', flush=True)
         finally:
-            signal.setitimer(signal.ITIMER_REAL, 0)
-            signal.signal(signal.SIGALRM, signal.SIG_DFL)
+            signal.setitimer(signal.ITIMER_VIRTUAL, 0)
 
     table_size = len(c03_target.NEG_TABLE)
     sizes = [c03_target.msg_size(i) - 19 for i in range(table_size)]
@@ -130,6 +134,7 @@ def main() -> None:
             outcome = c03_target.decode_and_force(msg_type, body, c03_target.negotiated_for(neg))
         except Stuck:
             outcome = ('violation', 'no-termination:watchdog', 'still decoding after 5 s of CPU')
+            stats['stuck'] = stats.get('stuck', 0) + 1
         finally:
             signal.setitimer(signal.ITIMER_VIRTUAL, 0)
         stats['execs'] += 1
@@ -140,6 +145,11 @@ def main() -> None:
             return
         signature = outcome[1]
         if signature in seen:
+            if CONTINUE and stats.get('stuck', 0) >= 3:
+                # every further input of that kind would cost five more seconds: the defect is reported, stop here
+                report_stats()
+                print('C03-ABORT the decoder did not terminate on three inputs', flush=True)
+                os._exit(0)
             return
         seen.add(signature)
         case = {'type': msg_type, 'neg': neg, 'hex': body.hex()}
